@@ -141,17 +141,28 @@ theorem NamesInv.addName {E : Ds} {nm : NameReg} (h : NamesInv E nm) (n : Name) 
   · intro x hx
     exact List.mem_append.mpr (Or.inl (h.sub x hx))
 
-/-- Every program, in every mode, keeps the invariant (patched `_netcdf_name`). -/
-theorem run_names_inv (fx : Fix) (hb : fx.blanks = true) (m : Mode) (E : Ds) {α : Type} (p : Prog α) :
-    ∀ (r : Reg) (fs : FileSt), NamesInv E r.nm → NamesInv E (run fx m p r fs).2.1.nm := by
+theorem post_not_dry (b : Bool) : (Mode.post == Mode.dry && b) = false := by cases b <;> rfl
+
+theorem netcdfNameRole_keep_false (bf : Bool) (n : NameReg) (base : Name) (s : Nat) (role : String) :
+    netcdfNameRole bf n base s role false = netcdfNameRole bf n base s role := rfl
+
+/-- Every program of the post-dry-run pass keeps the invariant (patched `_netcdf_name`). -/
+theorem run_names_inv (fx : Fix) (hb : fx.blanks = true) (E : Ds) {α : Type} (p : Prog α) :
+    ∀ (r : Reg) (fs : FileSt), NamesInv E r.nm → NamesInv E (run fx .post p r fs).2.1.nm := by
   induction p with
   | pure a => intro r fs h; exact h
   | fail e => intro r fs h; exact h
   | mode k ih => intro r fs h; simp only [run]; exact ih _ r fs h
   | get k ih => intro r fs h; simp only [run]; exact ih _ r fs h
   | modAux g p ih => intro r fs h; simp only [run]; exact ih _ fs h
-  | alloc b k ih => intro r fs h; simp only [run, hb]; exact ih _ _ fs (h.alloc b)
-  | allocRole b s role k ih => intro r fs h; simp only [run, hb]; exact ih _ _ fs (h.allocRole b s role)
+  | alloc b k ih =>
+    intro r fs h
+    simp only [run, hb, post_not_dry, Bool.false_eq_true, ↓reduceIte]
+    exact ih _ _ fs (h.alloc b)
+  | allocRole b s role k ih =>
+    intro r fs h
+    simp only [run, hb, post_not_dry]
+    exact ih _ _ fs (h.allocRole b s role)
   | noteDim n s p ih => intro r fs h; simp only [run]; exact ih _ fs (h.noteDim n s)
   | addName n p ih => intro r fs h; simp only [run]; exact ih _ fs (h.addName n)
   | createDim d p ih =>
@@ -166,7 +177,7 @@ theorem run_names_inv (fx : Fix) (hb : fx.blanks = true) (m : Mode) (E : Ds) {α
     split
     · exact ih r fs h
     · exact ih r _ h
-  | createVar v p ih =>
+  | createVar v e p ih =>
     intro r fs h; simp only [run]
     split
     · exact ih r fs h
@@ -174,7 +185,9 @@ theorem run_names_inv (fx : Fix) (hb : fx.blanks = true) (m : Mode) (E : Ds) {α
       · exact h
       · split
         · exact h
-        · exact ih r _ h
+        · split
+          · exact h
+          · exact ih r _ h
   | setAttr n k v p ih =>
     intro r fs h; simp only [run]
     split
